@@ -203,7 +203,12 @@ pub fn exec(fields: &[&str]) -> String {
     }));
     {
         let h = hook.clone();
-        log4rs::verif_hooks::set_rotate_point(Some(Arc::new(move |_i: u32| {
+        log4rs::verif_hooks::set_rotate_point(Some(Arc::new(move |i: u32| {
+            // the point between a compressing copy and the removal of its source is not a
+            // step of this slice's model (yet)
+            if i == u32::MAX - 1 {
+                return Ok(());
+            }
             let mut h = h.lock().unwrap();
             let snap = snapshot(&h.root);
             h.boundaries.push(snap);
@@ -412,6 +417,9 @@ fn exec_bg(
         let h = hook.clone();
         let faults: Vec<(usize, usize)> = faults.to_vec();
         log4rs::verif_hooks::set_rotate_point(Some(Arc::new(move |i: u32| {
+            if i == u32::MAX - 1 {
+                return Ok(());
+            }
             std::thread::sleep(std::time::Duration::from_micros(400));
             let mut h = h.lock().unwrap();
             if i == first_arg {
